@@ -87,10 +87,22 @@ def one_case(cid, pkey, rng):
     pc0 = rng.choice([0, 0, 5, 1234]); fc0 = rng.choice([0, 0, 3, 77])
     gen = np.random.default_rng(rng.randrange(2 ** 32)) if rng.random() < 0.5 else np.random.RandomState(rng.randrange(2 ** 32))
     prot = cls(progeny_counter=pc0, family_counter=fc0, rng=gen)
+    warm = rng.random() < 0.3
+    if warm:
+        # the protocol object has been used before, on another population with another shape (nothing it kept from that
+        # call may leak into this one); the counters simply continue
+        nt_w = rng.choice([2, 3, 5]); nv_w = rng.choice([1, 2, 5])
+        pgw = make_parents(nt_w, nv_w, [0.5] * nv_w, rng)
+        xw = np.array([[rng.randrange(nt_w) for _ in range(npar)] for _ in range(rng.choice([1, 2, 3]))], dtype="int64")
+        try:
+            prot.mate(pgw, xw, rng.choice([1, 2]), rng.choice([1, 3]), nself=rng.choice([0, 1, 2]))
+        except Exception:
+            pass
+        pc0 = int(prot.progeny_counter); fc0 = int(prot.family_counter)
     before = snapshot(pg)
     c = {"id": cid, "proto": pkey, "xconfig": xconfig.tolist(), "nm": nmv, "np": npv, "nself": nself, "xo": xcls,
          "pc0": pc0, "fc0": fc0, "exc": None, "ntaxa": ntaxa,
-         "nm_is_array": not isinstance(nm_arg, int), "np_is_array": not isinstance(np_arg, int)}
+         "nm_is_array": not isinstance(nm_arg, int), "np_is_array": not isinstance(np_arg, int), "warm": warm}
     try:
         with time_limit(60):
             out = prot.mate(pg, xconfig, nm_arg, np_arg, nself=nself)
